@@ -394,6 +394,12 @@ def build_unit(u, outpath, probe_fn=None, drop_fns=()):
             selected = []   # item indices in source order
             sel_methods = {}  # impl idx -> [fn idx]
             for sel in m.items:
+                if sel == "*const":
+                    # every top-level const of the file (so that a change which introduces a constant still extracts)
+                    for idx, it in enumerate(items):
+                        if it["kind"] == "const" and it.get("parent") is None and idx not in selected:
+                            selected.append(idx)
+                    continue
                 if sel not in by_path:
                     raise Undecided("item not found in %s: %s" % (m.file, sel))
                 for idx in by_path[sel]:
